@@ -54,6 +54,87 @@ func runPlain(id string, toks []string) (res string) {
 			return "-"
 		}
 		return strings.Join(out, " ")
+	case "pw":
+		return runPlainWorld(toks)
 	}
 	return "badcase"
+}
+
+// case: pw <stream hex> <event,event,...> <oracle>
+//
+//	A<k>  k more bytes of the stream arrive at the socket        R<max>  the HTTP layer reads with a buffer of max bytes
+//	V     a pair-verify handler accepts (Session.SetCryptographer) D       the response is written (SetResponding(false))
+//
+// The real hap.Connection over a socket that holds what has arrived. The driver plays net/http's part for "responding": it is
+// set with the read that completes a header (StateActive follows readRequest). Observed per event: "-" for A, V, D; for R:
+// h:<hex handed over>/<state> | z/<state> (nothing, no error) | b (the socket has nothing) | s (the secure session is in use),
+// state = len(plain)/len(plainHeader)/plainBody/plainUnframed/responding.
+func runPlainWorld(toks []string) string {
+	stream := unhex(toks[1])
+	sc, con, ctx := newScripted(nil)
+	pos := 0
+	resp := false
+	var out []string
+	state := func() string {
+		p, h, b, u, _ := con.VerifPlainState()
+		ui, ri := 0, 0
+		if u {
+			ui = 1
+		}
+		if resp {
+			ri = 1
+		}
+		return fmt.Sprintf("%d/%d/%d/%d/%d", p, h, b, ui, ri)
+	}
+	for _, e := range strings.Split(toks[2], ",") {
+		switch e[0] {
+		case 'A':
+			k, _ := strconv.Atoi(e[1:])
+			if pos+k > len(stream) {
+				k = len(stream) - pos
+			}
+			sc.mu.Lock()
+			sc.pending = append(sc.pending, stream[pos:pos+k]...)
+			sc.mu.Unlock()
+			pos += k
+			out = append(out, "-")
+		case 'V':
+			sess, err := newServerSession(sharedKey("00"))
+			if err != nil {
+				return "setup-error"
+			}
+			ctx.GetSessionForConnection(sc).SetCryptographer(sess)
+			out = append(out, "-")
+		case 'D':
+			con.SetResponding(false)
+			resp = false
+			out = append(out, "-")
+		case 'R':
+			max, _ := strconv.Atoi(e[1:])
+			_, _, bodyBefore, _, _ := con.VerifPlainState()
+			buf := make([]byte, max)
+			n, err := con.Read(buf)
+			sc.blocked = false
+			if ctx.GetSessionForConnection(sc) == nil || ctx.GetSessionForConnection(sc).Encrypter() != nil {
+				out = append(out, "s")
+				continue
+			}
+			_, h, _, _, _ := con.VerifPlainState()
+			if n > 0 && bodyBefore == 0 && h == 0 && !resp {
+				con.SetResponding(true)
+				resp = true
+			}
+			switch {
+			case n > 0:
+				out = append(out, "h:"+hx(buf[:n])+"/"+state())
+			case err == nil:
+				out = append(out, "z/"+state())
+			default:
+				out = append(out, "b")
+			}
+		default:
+			return "badcase"
+		}
+	}
+	return strings.Join(out, " ")
 }
